@@ -131,7 +131,12 @@ class CModel(object):
         if name == 'push':
             self.frames.append(Frame(None, self.top().cats))
         elif name == 'pushenv':
-            self.frames.append(Frame(op[1], self.top().cats))
+            cats = self.top().cats
+            if op[1] == 3:
+                # a document-level environment starts from the outermost frame: the groups open at that point are gone, with their
+                # definitions and aliases (the category codes in force stay in force, as they do in TeX)
+                del self.frames[1:]
+            self.frames.append(Frame(op[1], cats))
             if op[1] in ENV_LOCAL:
                 self.top().locals[ENV_LOCAL[op[1]]] = -(op[1] + 1)      # the macro the environment brings (value numbers below zero)
         elif name == 'pop':
@@ -203,9 +208,9 @@ def random_ops(r, maxlen):
         elif k < 0.28:
             op = ('pop',)
         elif k < 0.36:
-            op = ('pushenv', r.randint(0, 2))
+            op = ('pushenv', r.choice([0, 1, 2, 0, 1, 2, 3]))
         elif k < 0.44:
-            op = ('popenv', r.randint(0, 2))
+            op = ('popenv', r.choice([0, 1, 2, 0, 1, 2, 3]))
         elif k < 0.58:
             op = ('local', r.choice(KEYS))
         elif k < 0.66:
@@ -260,6 +265,8 @@ def env_classes():
         # of the names the sequences also define themselves
         _env_classes = [type('zqenv%d' % i, (plasTeX.Environment,), ({ENV_LOCAL[i]: type(ENV_LOCAL[i], (plasTeX.Command,), {})} if i in ENV_LOCAL else {}))
                         for i in range(3)]
+        # a fourth class at document level: opening it drops every group that is open at that point (Context.push)
+        _env_classes.append(type('zqenv3', (plasTeX.Environment,), {'level': plasTeX.Environment.DOCUMENT_LEVEL}))
     return _env_classes
 
 
